@@ -20,6 +20,8 @@ import Gostatix.Model.TopK
 import Gostatix.Model.Codec
 import Gostatix.Model.Redis
 import Gostatix.Model.Equals
+import Gostatix.Model.JsonDriver
+import Gostatix.Model.RedisDriver
 open Gostatix
 
 abbrev P := Except String
@@ -391,6 +393,8 @@ def handle (toks : List String) : P String := do
   | op :: rest =>
     if op.startsWith "eq." then handleEq (op :: rest)
     else if op.startsWith "size." then handleSize (op :: rest)
+    else if op.startsWith "json." then Gostatix.Json.handle (op :: rest)
+    else if op.startsWith "rt." then Redis.handleTie (op :: rest)
     else throw s!"unknown-op:{op}"
   | [] => throw "empty"
 
